@@ -20,7 +20,7 @@ EXPLANATION = (
     'TT stores a ply-independent value (read at another ply the score is that of the same n); every mate score of the domain is '
     'classified by isWinScore / isLoseScore and fits the 16-bit score field.'
     ' (2) a score found by searching after a null move leaves negaScout only after it was shown not to be a win score; (3) the check-evasion generator is complete (a node in check without evasions is scored as mate).'
-    ' Added later; (6) every TranspositionTable insert in negaScout is guarded by the flag derived from the singular-move test (unrestricted search). (7) forward-pruning skips in the move loop require a non-losing running maximum. (8) a move deferred by the ABDADA first pass (marked BUSY - reduction) is not skipped by the second pass, for every reduction 0..15. (9) a recursive call that can be reached with the exclusive-probe request still set is followed directly by the BUSY test on its result; every other recursive call is made with the request cleared. (10) = C12.1 an installed on-demand table has its region reserved on every exit of updateTB / clear / reSize.')
+    ' Added later; (6) every TranspositionTable insert in negaScout is guarded by the flag derived from the singular-move test (unrestricted search). (7) forward-pruning skips in the move loop require a non-losing running maximum. (8) a move deferred by the ABDADA first pass (marked BUSY - reduction) is not skipped by the second pass, for every reduction 0..15. (9) a recursive call that can be reached with the exclusive-probe request still set is followed directly by the BUSY test on its result; every other recursive call is made with the request cleared. (10) = C12.1 an installed on-demand table has its region reserved on every exit of updateTB / clear / reSize. (11) = C01.6 the tables that decide whether a double push records an en-passant square are exact for all 8 files.')
 UNDECIDED = ('that a reported mate exists (game-tree semantics); soundness of pruning near mate scores (a rule "every pruning is guarded '
              'by normalBound" would also fire on removing a provably redundant conjunct, i.e. on a behaviour-preserving edit - declined).')
 ASSUMPTIONS = ['domain: mates in 0..60 moves at plies 0..40 (covers every distance an 8-bit tablebase state or a search line can encode)']
@@ -57,6 +57,9 @@ def run(fb, rep, tier):
     # installed table whose bytes are open to ordinary hash stores answers with garbage (shared with C12.1 / C08.7)
     from . import C12
     C12.c1_typestate(fb, rep, 'C04.10')
+    # .11 a check that can be answered only by an en-passant capture is not mate: the tables that decide whether a double push
+    # records an en-passant square are exact for all 8 files (shared with C01.6)
+    rep.floor('C04.11', 'en-passant mask tables', C01.ep_tables(fb, rep, 'C04.11'), 2)
 
 
 def encoders(fb, rep, clause):
